@@ -1085,3 +1085,19 @@ V("c03-twin-simplify-driver-hand-over-in-method", "C03", "-", "dask_array/_expr.
   ("dask_array/_expr.py", "            if out is not expr and out._name != expr._name:\n                inherit(expr, out)\n                expr = out\n                break", "            if out is not expr and out._name != expr._name:\n                self._hand_over_consumers(expr, out, dependents)\n                expr = out\n                break"),
   ("dask_array/_expr.py", "    def simplify_once(self, dependents, simplified):\n        \"\"\"``Expr.simplify_once`` with one addition", "    @staticmethod\n    def _hand_over_consumers(old, new, dependents):\n        refs = dependents.get(old._name)\n        if refs:\n            seen = dependents[new._name]\n            seen.extend(ref for ref in refs if ref not in seen)\n\n    def simplify_once(self, dependents, simplified):\n        \"\"\"``Expr.simplify_once`` with one addition"),
 ])
+
+# -- C19 (one clause): native banded window kernels only on valid chunkings -----------------------------------------
+V("c19-sliding-predicate-accepts-long-blocks", "C19", "R19.1", "dask_array/reductions/_sliding_window.py",
+  "        if c > depth:\n            return False\n        start += c\n", "        start += c\n", expect="supports_native_sliding_window")
+V("c19-moving-predicate-accepts-long-blocks", "C19", "R19.1", "dask_array/reductions/_sliding_window.py",
+  "    return max(chunks) <= window - 1\n", "    return max(chunks) <= window\n", expect="supports_native_moving_window")
+V("c19-sliding-node-built-without-predicate", "C19", "R19.2", "dask_array/_overlap.py",
+  "                if reducer in NATIVE_SLIDING_REDUCERS and supports_native_sliding_window(\n                    rechunk.array.chunks[sliding_axis], window\n                ):", "                if reducer in NATIVE_SLIDING_REDUCERS and len(rechunk.array.chunks[sliding_axis]) > 1:", expect="SlidingWindowView._simplify_up")
+V("c19-sliding-node-never-rechecks", "C19", "R19.3", "dask_array/reductions/_sliding_window.py",
+  "        chunks = self.array.chunks[self.sliding_axis]\n        if supports_native_sliding_window(chunks, self.window):\n            return None\n        depth = self.window - 1\n", "        chunks = self.array.chunks[self.sliding_axis]\n        if len(chunks) > 1:\n            return None\n        depth = self.window - 1\n", expect="SlidingWindowReduction")
+V("c19-moving-node-not-grid-sensitive", "C19", "R19.4", "dask_array/reductions/_sliding_window.py",
+  "    def _requires_grid_preservation(self, dependency):\n        # built under a precondition on the input's block grid\n        return True\n\n    def _lower(self):\n        # Same as SlidingWindowReduction._lower", "    def _lower(self):\n        # Same as SlidingWindowReduction._lower", expect="MovingWindowReduction")
+V("c19-sliding-layer-without-raw-walk-guard", "C19", "R19.4", "dask_array/reductions/_sliding_window.py",
+  "        graph = self._graph_if_unlowered()\n        if graph is not None:\n            return graph\n        x = self.array\n        axis = self.sliding_axis\n\n        total_name", "        x = self.array\n        axis = self.sliding_axis\n\n        total_name", expect="SlidingWindowReduction")
+V("c19-twin-predicate-local-rename", "C19", "-", "dask_array/reductions/_sliding_window.py",
+  "    depth = window - 1\n    if depth <= 0:\n        return False\n", "    reach = window - 1\n    depth = reach\n    if reach <= 0:\n        return False\n", twin=True)
